@@ -83,7 +83,12 @@ def rule_frame(ctx, repo, eng):
         chk_ok = chk.kind == 'raw' and chk.get('n') == 4 and chk.get('slice_of') is not None
         src = chk.get('slice_of')
         dbl = False
-        if chk_ok:
+        if chk_ok and chk.node is not None:
+            from ..rules import canon_arith
+            full = canon_arith(common.resolved(w, chk.node, repo, defs={k_: v_ for k_, v_ in common.local_defs(w).items() if k_ != 'body'}))
+            if full in (canon_arith('hashlib.sha256(hashlib.sha256(body).digest()).digest()[:4]'), canon_arith('Hash(body)[:4]')):
+                dbl = True
+        if chk_ok and not dbl:
             # h = sha256(th).digest(); th = sha256(body).digest()
             defs = {norm(s.targets[0]): norm(s.value) for s in walk_no_nested(w.node) if isinstance(s, ast.Assign) and len(s.targets) == 1}
             d1 = defs.get(src, '')
@@ -307,13 +312,17 @@ def rule_address(ctx, repo):
     else:
         t = tests[0]
         tt = norm(t.test)
-        m = re.match(r'^(?:bytes\()?(\w+)\[0?:12\]\)? == IPV4_COMPAT$', tt)
+        m = re.match(r'^(?:bytes\()?(\w+)\[0?:12\]\)? (==|!=) IPV4_COMPAT$', tt)
+        negated = bool(m) and m.group(2) == '!='
         r.check(bool(m), 'reader:ipv4-test', common.site_of(rd, t), 'first 12 bytes == IPv4-mapped prefix',
                 'IPv4 detection is `%s`: an address is IPv4 only when its first 12 bytes equal 00*10 ff ff' % tt)
         if m:
             v = m.group(1)
             conv = [norm(n) for n in ast.walk(t) if isinstance(n, ast.Call) and norm(n.func).endswith('inet_ntop')]
-            ok = 'socket.inet_ntop(socket.AF_INET, %s[12:16])' % v in conv and 'socket.inet_ntop(socket.AF_INET6, %s)' % v in conv
+            v4_arm, v6_arm = (t.orelse, t.body) if negated else (t.body, t.orelse)
+            c4 = [norm(n) for s_ in v4_arm for n in ast.walk(s_) if isinstance(n, ast.Call) and norm(n.func).endswith('inet_ntop')]
+            c6 = [norm(n) for s_ in v6_arm for n in ast.walk(s_) if isinstance(n, ast.Call) and norm(n.func).endswith('inet_ntop')]
+            ok = c4 == ['socket.inet_ntop(socket.AF_INET, %s[12:16])' % v] and c6 == ['socket.inet_ntop(socket.AF_INET6, %s)' % v]
             r.check(ok, 'reader:ip-conversion', common.site_of(rd, t), 'IPv4 from bytes 12..16, IPv6 from all 16', 'address conversion calls are %s' % conv)
     init = repo.lookup_method(c, '__init__')
     st = [norm(n.value) for n in walk_no_nested(init.node) if isinstance(n, ast.Assign) and norm(n.targets[0]) == 'self.pchReserved']
